@@ -290,6 +290,8 @@ def judge_chunked(ctx, events, tag, cfgev, size=20000):
             ctx.violation(x["p"], "%s failed at call %d (%s)" % (x["n"], x["l"], ev.get("e")), compact(ev))
         for k in tot["cnt"]:
             tot["cnt"][k] += v["cnt"][k]
+        for n, c in v["cnt"].get("ant", {}).items():
+            tot.setdefault("ant", {})[n] = tot.get("ant", {}).get(n, 0) + c
         tot["div"] += v["div"]
         tot["tlc"]["distinct"] += v["tlc"].get("distinct", 0)
         tot["tlc"]["generated"] += v["tlc"].get("generated", 0)
@@ -312,6 +314,14 @@ def samples_from(events, n=3):
     return out
 
 
+REQUIRED_ANTS = {
+    "C01": ["RoundTrip"], "C02": ["Released"], "C03": ["Distinct", "FalseAcceptProbe"], "C04": ["UninitDependence"],
+    "C05": ["FailClosed", "FailClosedStaleErrno", "ShortSizes"], "C06": ["Shape"], "C07": ["Result", "ResultNonzeroErrno", "UninitDependence"],
+    "C08": ["AsIfAlone"], "C09": ["Wiped"], "C14": ["Handle", "Grow"], "C15": ["Balanced"], "C20": ["Result", "FailClosed"],
+    "C19": ["Result", "Released", "UninitDependence", "FailClosed"],
+}
+
+
 def mc_coverage(ctx, st, tr, verdicts, events, extra=None):
     cov = {"states": st, "transitions": tr,
            "traces_validated_against_impl": sum(1 for e in events if e.get("e") == "Reset") or 1,
@@ -323,6 +333,16 @@ def mc_coverage(ctx, st, tr, verdicts, events, extra=None):
            "model_divergences": sum(len(v["div"]) for v in verdicts),
            "calls_entered_with_nonzero_errno": sum(1 for e in events if e.get("ein")),
            "tlc_runs": ctx.tlc_runs}
+    # vacuity guard: how often the antecedent of each predicate held; the property's own predicates must have been exercised
+    ants = {}
+    for v in verdicts:
+        for n, c in (v.get("ant") or v["cnt"].get("ant") or {}).items():
+            ants[n] = ants.get(n, 0) + c
+    if ants:
+        cov["predicate_antecedent_held"] = ants
+        missing = [n for n in REQUIRED_ANTS.get(ctx.prop, []) if not ants.get(n)]
+        if missing:
+            raise Broken("vacuous run: the antecedent of %s never held in the judged calls" % missing)
     cov.update(extra or {})
     return cov
 
@@ -928,10 +948,21 @@ def gs_coverage(ctx, vs, events, extra):
            "calls_judged": sum(v["cnt"]["calls"] for v in vs), "calls_ok": sum(v["cnt"]["ok"] for v in vs),
            "calls_failed": sum(v["cnt"]["failed"] for v in vs),
            "model_divergences": sum(len(v["div"]) for v in vs), "tlc_runs": ctx.tlc_runs[-6:]}
+    ants = {}
+    for v in vs:
+        for n, c in (v["cnt"].get("ant") or {}).items():
+            ants[n] = ants.get(n, 0) + c
+    if ants:
+        cov["predicate_antecedent_held"] = ants
+        missing = [n for n in REQUIRED_ANTS_GS.get(ctx.prop, []) if not ants.get(n)]
+        if missing:
+            raise Broken("vacuous run: the antecedent of %s never held in the judged gensalt calls" % missing)
     cov.update(extra)
     return cov
 
 
+REQUIRED_ANTS_GS = {"C10": ["Success", "Deterministic", "NonzeroErrno"], "C11": ["Success", "CostReject"],
+                    "C12": ["Flip", "EntropyFresh", "AutoEntropy"], "C13": ["Monotone", "Full", "SmallSize", "NonzeroErrno"]}
 GS_ASSUME = ["Gensalt.tla/Settings.tla transcribe the documented behaviour (gated by zero model divergences on the unchanged tree)",
              "count, nrbytes and size values are the grids listed in coverage, not all 2^64 x 2^32 x 2^32 values"]
 
@@ -1057,6 +1088,15 @@ def c12(ctx):
     rnd_cov = random_chain(ctx)
     allev = ev1 + ev3
     annotate_gs(allev)
+    # the pair relation of the fresh draws: each second draw points at the first draw of the same request
+    # (annotate_gs points gprev at the FIRST identical request, which is one of ev1's interposed-entropy calls:
+    # found by the vacuity guard -- the "two real draws differ" clause had never been exercised)
+    lastfresh = {}
+    for i, e in enumerate(allev, 1):
+        if e.get("e") in vlib.GS and e.get("fresh"):
+            k = (tuple(e["prefix"]), e["prefixnull"])
+            e["gprev"] = lastfresh.get(k, 0)
+            lastfresh.setdefault(k, i)
     # fprev links inside the flip trace (base precedes its flips)
     annotate_gs(ev2)
     basei = 0
